@@ -16,7 +16,7 @@ Seeds == {
        additionalProperties |-> FalseS]),
   Sch([type |-> "object", title |-> "T",
        properties |-> << <<"a", Ty("integer")>>, <<"b", Sch([default |-> JStr("")])>> >>,
-       required |-> <<"a", "b">>, minProperties |-> 0,
+       required |-> <<"a", "b">>, minProperties |-> 0, description |-> " d  x",
        patternProperties |-> << <<"^b", Empty>> >>]),
   Sch([itemsT |-> << Ty("integer"), Ty("string") >>, additionalItems |-> FalseS,
        contains |-> Sch([const |-> JInt(1)])]),
